@@ -29,6 +29,22 @@ def apply(t, act, args):
         except ValueError:
             return "raised"
         return "ok"
+    if act == "SetIndexUnknown":
+        try:
+            t.index_name = args[0]
+        except (ValueError, KeyError):
+            return "raised"
+        return "ok"
+    if act == "Derived":
+        kind, col = args
+        if kind == "filtered":
+            d = t.filtered(lambda x: True, columns=col)
+        elif kind == "with_new_column":
+            d = t.with_new_column("n", lambda x: 0, columns=col)
+        else:
+            d = t.sorted(columns=col)
+        index = d.index_name or ""  # settles (and validates) the index the derived table was given
+        return {"derived": kind, "header": list(d.header), "index": index, "rows": rp.norm_rows(rp.rows_of(d))}
     if act == "ClearIndex":
         t.index_name = None
         return "ok"
@@ -48,7 +64,8 @@ def apply(t, act, args):
         return {"sums": [int(x) for x in (r if isinstance(r, list) else [r])]}
     if act == "WriteLoad":
         got, _ = tx.write_and_load(t, args[0], tx._workdir())
-        return {"header": list(got.header), "loaded": got, "fmt": args[0]}
+        return {"header": list(got.header), "loaded": got, "fmt": args[0],
+                "index": (got.index_name or "") if args[0] in ("json", "pickle") else None}
     raise ValueError(act)
 
 
@@ -101,8 +118,18 @@ def object_case(job):
             diffs.append("returned-rows" if obs["rows"] != exp["rows"] else "returned-keys")
         elif act == "SumRows" and obs["sums"] != list(rec["ret"]):
             diffs.append("returned-sums")
+        elif act == "Derived":
+            extra = obs["derived"] == "with_new_column"
+            if obs["header"] != exp["header"] + (["n"] if extra else []):
+                diffs.append("derived-header")
+            if obs["index"] != exp["index"]:
+                diffs.append("derived-index_name")
+            if obs["rows"] != [r + ([rp.norm(0)] if extra else []) for r in exp["rows"]]:
+                diffs.append("derived-rows")
         elif act == "WriteLoad":
             got = obs["loaded"]
+            if obs["index"] is not None and obs["index"] != exp["index"]:
+                diffs.append("loaded-index_name")
             delimited = obs["fmt"] in DELIMITED
             if obs["header"] != exp["header"]:
                 diffs.append("loaded-header")
@@ -157,11 +184,12 @@ def check_object(run, stats, jobs):
     acts = {}
     for r in recs:
         acts[r["act"]] = acts.get(r["act"], 0) + 1
-    need = {"SetIndex", "ClearIndex", "AssignColumn", "DelColumn", "Array", "ToDict", "SumRows", "WriteLoad"}
+    need = {"SetIndex", "SetIndexUnknown", "ClearIndex", "AssignColumn", "DelColumn", "Array", "ToDict", "SumRows", "WriteLoad", "Derived"}
     if need - set(acts) or depth < 3:
         raise RuntimeError(f"vacuous: object histories lack {sorted(need - set(acts))} or depth {depth} < 3")
     # read order 1 (full read after every call) for histories of up to 3 calls, read order 0 for all
-    work = [(r, v) for r in recs for v in VARIANTS if v == 0 or len(r["hist"]) < 3]
+    full = 2 if run.tier == "quick" else 3  # quick: read order 1 for histories of up to 2 calls
+    work = [(r, v) for r in recs for v in VARIANTS if v == 0 or len(r["hist"]) < full]
     t0 = time.time()
     n = bad = 0
     sampled = False
